@@ -203,15 +203,16 @@ bool StepScript(InterpreterEnv& env)
             if (!env.p2sh_sig_pushonly)
                 return set_error(serror, SCRIPT_ERR_SIG_PUSHONLY);
 
+            // the saved stack cannot be empty in a script that ran without error, because the
+            // P2SH  HASH <> EQUAL  scriptPubKey would have failed on an empty stack; a user who
+            // keeps stepping after that error still must not get past this point
+            if (env.p2shstack.empty())
+                return set_error(serror, SCRIPT_ERR_INVALID_STACK_OPERATION);
+
             // Restore stack.
             is_p2sh = false;
             stack = env.p2shstack;
             // swap(stack, stackCopy);
-
-            // stack cannot be empty here, because if it was the
-            // P2SH  HASH <> EQUAL  scriptPubKey would be evaluated with
-            // an empty stack and the EvalScript above would return false.
-            assert(!stack.empty());
 
             const valtype& pubKeySerialized = stack.back();
             CScript pubKey2(pubKeySerialized.begin(), pubKeySerialized.end());
